@@ -9,17 +9,20 @@ Model: `RedisVerif.Codec` (M5: segment and checkpoint framing) and `RedisVerif.W
 over PARAMETERS `crc` (crc32fast), `ser`/`de` (bincode of a delta / of the checkpoint state;
 serde_json of a gossip message) with the law `de (ser d) = some d` as an explicit hypothesis
 (validated on every run by the Rust-side round trips over every CRDT kind and shape).
+Two flags name the code variant: `strict` (segment record iterator: `true` = CURRENT code, which
+errors when fewer records than `record_count` are present; `false` = before the `fix:` commit)
+and the WAL `Format` (`.v2` = current, `.v1` = before the checksum fix).
 
-Proved: `segment_roundtrip`, `checkpoint_roundtrip`, `wal_entry_roundtrip`;
-`checkpoint_truncation_detected` (every proper prefix, unconditionally);
-`segment_truncation_detected_partial` (every proper prefix that does not END in the footer magic);
-`covered_corruption_detected` (segment: under `CrcDetects`-style hypotheses a same-length
-corrupted image is rejected or decodes to the SAME data) with its checkpoint counterparts;
-`uncovered_bytes_harmless` (the exact bytes no checksum covers, and that they do not influence the
-decoded data).  Refuted: `C14_segment_truncation_detected` — `record_count` is not
-cross-checked, so a crafted payload makes a truncated segment pass every check and decode to
-FEWER records (`segment_truncation_counterexample`, CRC-32 instance); the WAL timestamp is
-outside the entry checksum (`wal_timestamp_uncovered_counterexample`, shared with C10).
+Proved for the current code: `segment_roundtrip`, `checkpoint_roundtrip`, `wal_entry_roundtrip`;
+`segment_truncation_detected` and `checkpoint_truncation_detected` (EVERY proper prefix is an
+error, unconditionally); `covered_corruption_detected` (segment: under `CrcDetects`-style
+hypotheses a same-length corrupted image is rejected or decodes to the SAME data),
+`checkpoint_corruption_detected`; `uncovered_bytes_harmless_*` (the exact bytes no checksum
+covers, and that they do not influence the decoded data); `wal_timestamp_covered` (a damaged
+stamp of a WAL entry is rejected when the checksum notices).
+About the old variants (helper lemmas are in `Lemmas/Codec.lean`):
+`segment_truncation_counterexample` (lax iterator: a truncated segment passes every check and
+decodes to FEWER records), `wal_timestamp_uncovered_counterexample` (format v1).
 -/
 namespace RedisVerif
 namespace C14
@@ -28,47 +31,13 @@ open Wal Codec
 
 /-! ## round trips -/
 
-/-- everything the writer puts into width-limited fields fits -/
-def SegFits (crc : Bytes → Nat) (ps : List Bytes) (ts : List Nat) : Prop :=
-  ps.length < 2 ^ 32 ∧ (∀ p ∈ ps, p.length < 2 ^ 32) ∧
-  crc (segCovered ps.length (minOf ts) (maxOf ts)) < 2 ^ 32 ∧ crc (records ps) < 2 ^ 32
-
-instance (crc : Bytes → Nat) (ps : List Bytes) (ts : List Nat) : Decidable (SegFits crc ps ts) := by
-  unfold SegFits; infer_instance
-
-/-- what the reader makes of a written header + arbitrary records + written footer, with
-    ARBITRARY bytes in the positions no checksum covers (`pad` = header bytes 30..40, `sizes` =
-    footer bytes 4..20) -/
-theorem readSegParts_written {δ : Type} (crc : Bytes → Nat) (de : Bytes → Option δ)
-    (n a b : Nat) (recs pad sizes : Bytes) (hs : sizes.length = 16) (hn : n < 2 ^ 32)
-    (hc : crc (segCovered n a b) < 2 ^ 32) (hr : crc recs < 2 ^ 32) :
-    readSegParts crc de (segHeaderG crc n a b pad) recs (segFooterG crc recs sizes)
-      = readRecords de n recs := by
-  obtain ⟨h1, h2, h3, h4, h5, h6⟩ := segHeader_fields crc n a b pad
-  obtain ⟨f1, f2, _⟩ := segFooter_fields crc recs sizes hs
-  unfold readSegParts
-  simp only [h1, h2, h3, h4, h5, h6, f1, f2]
-  rw [leVal_le 4 _ (by simpa using hc), leVal_le 4 _ (by simpa using hr), leVal_le 4 _ (by simpa using hn)]
-  simp
-
-theorem readSegment_written {δ : Type} (crc : Bytes → Nat) (de : Bytes → Option δ)
-    (n a b : Nat) (recs pad sizes : Bytes) (hp : pad.length = 10) (hs : sizes.length = 16)
-    (hn : n < 2 ^ 32) (hc : crc (segCovered n a b) < 2 ^ 32) (hr : crc recs < 2 ^ 32) :
-    readSegment crc de (segHeaderG crc n a b pad ++ (recs ++ segFooterG crc recs sizes))
-      = readRecords de n recs := by
-  obtain ⟨_, _, f3⟩ := segFooter_fields crc recs sizes hs
-  obtain ⟨p1, p2, p3, p4⟩ := seg_parts (segHeaderG crc n a b pad) recs (segFooterG crc recs sizes)
-    (segHeader_length _ _ _ _ _ hp) f3
-  unfold readSegment
-  rw [if_neg (by rw [p1]; omega), p2, p3, p4, readSegParts_written crc de n a b recs pad sizes hs hn hc hr]
-
 /-- a written segment reads back exactly the deltas that were written, any batch size -/
-theorem segment_roundtrip {δ : Type} (crc : Bytes → Nat) (ser : δ → Bytes) (de : Bytes → Option δ)
+theorem segment_roundtrip {δ : Type} (strict : Bool) (crc : Bytes → Nat) (ser : δ → Bytes) (de : Bytes → Option δ)
     (ds : List δ) (ts : List Nat) (img : Bytes)
     (hlaw : ∀ d ∈ ds, de (ser d) = some d)
     (hfit : SegFits crc (ds.map ser) ts)
     (hw : writeSegment crc (ds.map ser) ts = some img) :
-    readSegment crc de img = .ok ds := by
+    readSegment strict crc de img = .ok ds := by
   obtain ⟨hn, hp, hc, hr⟩ := hfit
   unfold writeSegment at hw
   split at hw
@@ -76,8 +45,8 @@ theorem segment_roundtrip {δ : Type} (crc : Bytes → Nat) (ser : δ → Bytes)
   · simp only [Option.some.injEq] at hw
     subst hw
     rw [segHeader_eq, segFooter_eq,
-      readSegment_written crc de _ _ _ _ _ _ (by simp) (by simp [le_length]) hn hc hr]
-    have := readRecords_records ser de ds hlaw (fun d hd => hp (ser d) (List.mem_map_of_mem hd)) 0
+      readSegment_written strict crc de _ _ _ _ _ _ (by simp) (by simp [le_length]) hn hc hr]
+    have := readRecords_records strict ser de ds hlaw (fun d hd => hp (ser d) (List.mem_map_of_mem hd)) 0 (Or.inr rfl)
     simpa using this
 
 example : SegFits Driver.crc32 [[1, 2], []] [7, 3] := by decide +kernel
@@ -90,93 +59,52 @@ theorem segment_empty_refused (crc : Bytes → Nat) (ts : List Nat) : writeSegme
 /-- EXACTLY these bytes of a segment are covered by no checksum: header padding 30..40 and the
     two footer size fields (footer bytes 4..20).  Whatever they are changed to, the segment
     decodes to the same data as the pristine image. -/
-theorem uncovered_bytes_harmless_segment {δ : Type} (crc : Bytes → Nat) (de : Bytes → Option δ)
+theorem uncovered_bytes_harmless_segment {δ : Type} (strict : Bool) (crc : Bytes → Nat) (de : Bytes → Option δ)
     (ps : List Bytes) (ts : List Nat) (img pad sizes : Bytes)
     (hfit : SegFits crc ps ts) (hw : writeSegment crc ps ts = some img)
     (hp : pad.length = 10) (hs : sizes.length = 16) :
-    readSegment crc de
+    readSegment strict crc de
         (segHeaderG crc ps.length (minOf ts) (maxOf ts) pad ++
           (records ps ++ segFooterG crc (records ps) sizes))
-      = readSegment crc de img := by
+      = readSegment strict crc de img := by
   obtain ⟨hn, _, hc, hr⟩ := hfit
   unfold writeSegment at hw
   split at hw
   · cases hw
   · simp only [Option.some.injEq] at hw
     subst hw
-    rw [readSegment_written crc de _ _ _ _ _ _ hp hs hn hc hr, segHeader_eq, segFooter_eq,
-      readSegment_written crc de _ _ _ _ _ _ (by simp) (by simp [le_length]) hn hc hr]
-
-/-- the reader looks at nothing but header bytes 0..30, the record bytes, and footer bytes
-    0..4 and 20..24 -/
-theorem readSegParts_congr {δ : Type} (crc : Bytes → Nat) (de : Bytes → Option δ)
-    (hdr hdr' recs foot foot' : Bytes) (hh : hdr'.take 30 = hdr.take 30)
-    (hf : foot'.take 4 = foot.take 4) (hm : (foot'.drop 20).take 4 = (foot.drop 20).take 4) :
-    readSegParts crc de hdr' recs foot' = readSegParts crc de hdr recs foot := by
-  unfold readSegParts
-  simp only [hh, hf, hm]
+    rw [readSegment_written strict crc de _ _ _ _ _ _ hp hs hn hc hr, segHeader_eq, segFooter_eq,
+      readSegment_written strict crc de _ _ _ _ _ _ (by simp) (by simp [le_length]) hn hc hr]
 
 /-! ## segment: corruption of covered bytes -/
-
-theorem readSegParts_err_of_header_crc {δ : Type} (crc : Bytes → Nat) (de : Bytes → Option δ)
-    (hdr recs foot : Bytes)
-    (h : crc ((hdr.take 30).take 26) ≠ leVal (((hdr.take 30).drop 26).take 4)) :
-    IsErr (readSegParts crc de hdr recs foot) := by
-  unfold readSegParts
-  simp only
-  repeat' split
-  all_goals first | exact isErr_error _ | (exfalso; omega) | (exfalso; contradiction)
-
-theorem readSegParts_err_of_magic {δ : Type} (crc : Bytes → Nat) (de : Bytes → Option δ)
-    (hdr recs foot : Bytes) (h : (foot.drop 20).take 4 ≠ footMagic) :
-    IsErr (readSegParts crc de hdr recs foot) := by
-  unfold readSegParts
-  simp only
-  repeat' split
-  all_goals first | exact isErr_error _ | (exfalso; omega) | (exfalso; contradiction)
-
-theorem readSegParts_err_of_data_crc {δ : Type} (crc : Bytes → Nat) (de : Bytes → Option δ)
-    (hdr recs foot : Bytes) (h : crc recs ≠ leVal (foot.take 4)) :
-    IsErr (readSegParts crc de hdr recs foot) := by
-  unfold readSegParts
-  simp only
-  repeat' split
-  all_goals first | exact isErr_error _ | (exfalso; omega) | (exfalso; contradiction)
 
 /-- `covered_corruption_detected` (segment): take the three parts of a same-length damaged
     image.  If the header CRC notices every change of header bytes 0..30 (`Hh`) and the data CRC
     notices every change of the record bytes / of the stored data checksum (`Hd`) — the two
     `CrcDetects` hypotheses, both decidable — then the damaged image is REJECTED or decodes to
     exactly what the pristine image decodes to: never into different data. -/
-theorem covered_corruption_detected {δ : Type} (crc : Bytes → Nat) (de : Bytes → Option δ)
+theorem covered_corruption_detected {δ : Type} (strict : Bool) (crc : Bytes → Nat) (de : Bytes → Option δ)
     (hdr recs foot hdr' recs' foot' : Bytes)
     (hmagic : (foot.drop 20).take 4 = footMagic)
     (Hh : hdr'.take 30 ≠ hdr.take 30 →
       crc ((hdr'.take 30).take 26) ≠ leVal (((hdr'.take 30).drop 26).take 4))
     (Hd : (recs' ≠ recs ∨ foot'.take 4 ≠ foot.take 4) → crc recs' ≠ leVal (foot'.take 4)) :
-    IsErr (readSegParts crc de hdr' recs' foot') ∨
-      readSegParts crc de hdr' recs' foot' = readSegParts crc de hdr recs foot := by
+    IsErr (readSegParts strict crc de hdr' recs' foot') ∨
+      readSegParts strict crc de hdr' recs' foot' = readSegParts strict crc de hdr recs foot := by
   by_cases h1 : hdr'.take 30 = hdr.take 30
   · by_cases h2 : recs' = recs ∧ foot'.take 4 = foot.take 4
     · by_cases h3 : (foot'.drop 20).take 4 = footMagic
       · right
         rw [h2.1]
-        exact readSegParts_congr crc de hdr hdr' recs foot foot' h1 h2.2 (by rw [h3, hmagic])
-      · left; exact readSegParts_err_of_magic crc de _ _ _ h3
+        exact readSegParts_congr strict crc de hdr hdr' recs foot foot' h1 h2.2 (by rw [h3, hmagic])
+      · left; exact readSegParts_err_of_magic strict crc de _ _ _ h3
     · left
       apply readSegParts_err_of_data_crc
       apply Hd
       by_cases hr : recs' = recs
       · right; intro hf; exact h2 ⟨hr, hf⟩
       · left; exact hr
-  · left; exact readSegParts_err_of_header_crc crc de _ _ _ (Hh h1)
-
-/-- the parts view is what `readSegment` computes -/
-theorem readSegment_parts {δ : Type} (crc : Bytes → Nat) (de : Bytes → Option δ) (data : Bytes)
-    (h : 64 ≤ data.length) :
-    readSegment crc de data = readSegParts crc de (data.take 40)
-      ((data.drop 40).take (data.length - 64)) (data.drop (data.length - 24)) := by
-  unfold readSegment; rw [if_neg (by omega)]
+  · left; exact readSegParts_err_of_header_crc strict crc de _ _ _ (Hh h1)
 
 -- non-vacuity of the two CRC hypotheses: CRC-32 notices a flipped record byte and a flipped
 -- header byte of a small written segment
@@ -184,35 +112,91 @@ example : Driver.crc32 [2, 0, 0, 0, 1, 3] ≠ Driver.crc32 [2, 0, 0, 0, 1, 2] :=
 
 /-! ## segment: truncation -/
 
-/-- the last four bytes are the footer magic -/
-def EndsInFooterMagic (p : Bytes) : Prop := ((p.drop (p.length - 24)).drop 20).take 4 = footMagic
-
-instance (p : Bytes) : Decidable (EndsInFooterMagic p) := by unfold EndsInFooterMagic; infer_instance
-
 /-- FULL-STRENGTH statement: every proper prefix of a written segment is an error -/
-def C14_segment_truncation_detected {δ : Type} (crc : Bytes → Nat) (ser : δ → Bytes)
+def C14_segment_truncation_detected {δ : Type} (strict : Bool) (crc : Bytes → Nat) (ser : δ → Bytes)
     (de : Bytes → Option δ) : Prop :=
   ∀ (ds : List δ) (ts : List Nat) (img : Bytes), (∀ d ∈ ds, de (ser d) = some d) →
     SegFits crc (ds.map ser) ts → writeSegment crc (ds.map ser) ts = some img →
-    ∀ n, n < img.length → IsErr (readSegment crc de (img.take n))
+    ∀ n, n < img.length → IsErr (readSegment strict crc de (img.take n))
 
-/-- proved form: every byte string (in particular every proper prefix of a segment) that does
+/-- CURRENT code (strict iterator): EVERY proper prefix of a written segment is reported as an
+    error — whatever the payloads contain, no checksum assumption: either a header / footer /
+    checksum test fails, or the record iterator runs out of bytes before `record_count` records -/
+theorem segment_truncation_detected {δ : Type} (crc : Bytes → Nat) (ser : δ → Bytes)
+    (de : Bytes → Option δ) : C14_segment_truncation_detected true crc ser de := by
+  intro ds ts img _ hfit hw n hn
+  obtain ⟨hcnt, hp, _, _⟩ := hfit
+  unfold writeSegment at hw
+  split at hw
+  · cases hw
+  · simp only [Option.some.injEq] at hw
+    subst hw
+    rw [segHeader_eq, segFooter_eq] at hn ⊢
+    obtain ⟨f1, f2, f3⟩ := segFooter_fields crc (records (ds.map ser))
+      (le 8 (records (ds.map ser)).length ++ le 8 (records (ds.map ser)).length) (by simp [le_length])
+    obtain ⟨p1, p2, _, _⟩ := seg_parts (segHeaderG crc (ds.map ser).length (minOf ts) (maxOf ts)
+      (List.replicate 10 0)) (records (ds.map ser)) _ (segHeader_length _ _ _ _ _ (by simp)) f3
+    rw [p1] at hn
+    unfold readSegment
+    rw [List.length_take, p1, Nat.min_eq_left (by omega)]
+    split
+    · exact isErr_error _
+    · rename_i h64
+      apply readSegParts_isErr_of_records
+      -- the header is intact: the announced count is the number of records written
+      have hhdr : ((List.take n (segHeaderG crc (ds.map ser).length (minOf ts) (maxOf ts)
+            (List.replicate 10 0) ++ (records (ds.map ser) ++ segFooterG crc (records (ds.map ser))
+            (le 8 (records (ds.map ser)).length ++ le 8 (records (ds.map ser)).length)))).take 40)
+          = segHeaderG crc (ds.map ser).length (minOf ts) (maxOf ts) (List.replicate 10 0) := by
+        rw [List.take_take, Nat.min_eq_left (by omega)]; exact p2
+      rw [hhdr, (segHeader_fields crc _ _ _ _).2.2.2.2.2, leVal_le 4 _ (by simpa using hcnt)]
+      -- the record region is a proper prefix of the records written
+      have hrec : (List.drop 40 (List.take n (segHeaderG crc (ds.map ser).length (minOf ts) (maxOf ts)
+            (List.replicate 10 0) ++ (records (ds.map ser) ++ segFooterG crc (records (ds.map ser))
+            (le 8 (records (ds.map ser)).length ++ le 8 (records (ds.map ser)).length))))).take (n - 64)
+          = (records (ds.map ser)).take (n - 64) := by
+        rw [List.drop_take, List.take_take, Nat.min_eq_left (by omega),
+          List.drop_left' (segHeader_length _ _ _ _ _ (by simp)),
+          List.take_append_of_le_length (by omega)]
+      rw [hrec]
+      exact readRecords_strict_prefix_err de (ds.map ser) hp (n - 64) (by omega)
+
+/-- either iterator: every byte string (in particular every proper prefix of a segment) that does
     not END in the four footer-magic bytes is rejected -/
-theorem segment_truncation_detected_partial {δ : Type} (crc : Bytes → Nat) (de : Bytes → Option δ)
+theorem segment_truncation_detected_partial {δ : Type} (strict : Bool) (crc : Bytes → Nat) (de : Bytes → Option δ)
     (img : Bytes) (n : Nat) (hm : ¬ EndsInFooterMagic (img.take n)) :
-    IsErr (readSegment crc de (img.take n)) := by
+    IsErr (readSegment strict crc de (img.take n)) := by
   unfold readSegment
   split
   · exact isErr_error _
-  · exact readSegParts_err_of_magic crc de _ _ _ hm
+  · exact readSegParts_err_of_magic strict crc de _ _ _ hm
 
-/-- `record_count` is not cross-checked: when the record bytes end early the iterator stops
+/-- OLD (lax) iterator: `record_count` was not cross-checked: when the record bytes end early the iterator stops
     silently and returns FEWER records than the header announces -/
 theorem record_count_not_cross_checked {δ : Type} (ser : δ → Bytes) (de : Bytes → Option δ)
     (ds : List δ) (hde : ∀ d ∈ ds, de (ser d) = some d) (hfit : ∀ d ∈ ds, (ser d).length < 2 ^ 32)
     (missing : Nat) :
-    readRecords de (ds.length + missing) (records (ds.map ser)) = .ok ds :=
-  readRecords_records ser de ds hde hfit missing
+    readRecords false de (ds.length + missing) (records (ds.map ser)) = .ok ds :=
+  readRecords_records false ser de ds hde hfit missing (Or.inl rfl)
+
+/-- CURRENT (strict) iterator: the same situation is an error -/
+theorem record_count_cross_checked {δ : Type} (de : Bytes → Option δ) (ps : List Bytes)
+    (hfit : ∀ p ∈ ps, p.length < 2 ^ 32) (missing : Nat) :
+    IsErr (readRecords true de (ps.length + (missing + 1)) (records ps)) := by
+  have h := readRecords_strict_prefix_err de (ps ++ List.replicate (missing + 1) [])
+    (by
+      intro p hp
+      rcases List.mem_append.mp hp with h1 | h1
+      · exact hfit p h1
+      · rw [List.eq_of_mem_replicate h1]; decide)
+    (records ps).length
+    (by simp [records, List.flatMap_append, List.flatMap_replicate, record, le_length])
+  have hl : (ps ++ List.replicate (missing + 1) []).length = ps.length + (missing + 1) := by simp
+  rw [hl] at h
+  have ht : (records (ps ++ List.replicate (missing + 1) [])).take (records ps).length = records ps := by
+    unfold records; rw [List.flatMap_append]; exact List.take_left' rfl
+  rw [ht] at h
+  exact h
 
 /-- witness: two records; the first one's bytes have CRC-32 = 21 = the length of the second
     payload, whose bytes 16..20 spell the footer magic.  Cutting the image right after
@@ -221,58 +205,29 @@ theorem record_count_not_cross_checked {δ : Type} (ser : δ → Bytes) (de : By
 def truncWitness : List Bytes :=
   [[139, 11, 210, 25], List.replicate 16 0 ++ [71, 69, 83, 82] ++ [0]]
 
-/-- the truncated segment passes open + validate + read_all and yields ONE record instead of
+/-- OLD (lax) iterator: the truncated segment passes open + validate + read_all and yields ONE record instead of
     two: decoded into different data, no error -/
 theorem segment_truncation_counterexample :
-    ¬ C14_segment_truncation_detected Driver.crc32 (fun b : Bytes => b) (fun b => some b) := by
+    ¬ C14_segment_truncation_detected false Driver.crc32 (fun b : Bytes => b) (fun b => some b) := by
   intro h
   have hfit : SegFits Driver.crc32 (truncWitness.map fun b => b) [1, 2] := by decide +kernel
   obtain ⟨e, he⟩ := h truncWitness [1, 2]
     ((writeSegment Driver.crc32 truncWitness [1, 2]).getD []) (fun d _ => rfl) hfit
     (by decide +kernel) 72 (by decide +kernel)
-  have : readSegment Driver.crc32 (fun b => some b)
+  have : readSegment false Driver.crc32 (fun b => some b)
       (((writeSegment Driver.crc32 truncWitness [1, 2]).getD []).take 72)
       = .ok [[139, 11, 210, 25]] := by decide +kernel
   rw [this] at he
   cases he
 
+/-- the same truncated witness on the CURRENT iterator: an error (instance of
+    `segment_truncation_detected`, evaluated) -/
+theorem truncation_witness_rejected :
+    readSegment true Driver.crc32 (fun b => some b)
+      (((writeSegment Driver.crc32 truncWitness [1, 2]).getD []).take 72) = .error .eof := by
+  decide +kernel
+
 /-! ## checkpoint -/
-
-def ChkFits (crc : Bytes → Nat) (k t l : Nat) (payload : Bytes) : Prop :=
-  payload.length < 2 ^ 32 ∧ crc (chkCoveredA ++ chkCoveredB k t l) < 2 ^ 32 ∧
-  crc payload < 2 ^ 32 ∧ crc (le 4 (crc payload) ++ le 8 payload.length) < 2 ^ 32
-
-instance (crc : Bytes → Nat) (k t l : Nat) (p : Bytes) : Decidable (ChkFits crc k t l p) := by
-  unfold ChkFits; infer_instance
-
-/-- reading a written checkpoint whose uncovered bytes (header padding 6..8, reserved 32..44,
-    anything after the footer) are ARBITRARY -/
-theorem readCheckpoint_written {σ : Type} (crc : Bytes → Nat) (de : Bytes → Option σ)
-    (k t l : Nat) (payload pad res trailing : Bytes) (hp : pad.length = 2) (hr : res.length = 12)
-    (hfit : ChkFits crc k t l payload) :
-    readCheckpoint crc de (chkHeaderG crc k t l pad res ++
-        (le 4 payload.length ++ (payload ++ (chkFooter crc payload ++ trailing))))
-      = match de payload with
-        | none => .error .ser
-        | some s => .ok s := by
-  obtain ⟨hl, hc, hd, hf⟩ := hfit
-  obtain ⟨h1, h2, h3, h4, h5⟩ := chkHeader_fields crc k t l pad res hp hr
-  obtain ⟨f1, f2, f3, f4⟩ := chkFooter_fields crc payload
-  obtain ⟨p1, p2, p3, p4, p5⟩ := chk_parts (chkHeaderG crc k t l pad res) (le 4 payload.length)
-    payload (chkFooter crc payload) trailing (chkHeader_length _ _ _ _ _ _ hp hr) (le_length _ _)
-    (chkFooter_length _ _)
-  unfold readCheckpoint
-  rw [if_neg (by rw [p1]; omega)]
-  simp only [p2, p3, h1, h2, h3, h4, h5]
-  rw [leVal_le 4 _ (by simpa using hc), leVal_le 4 _ (by simpa using hl)]
-  simp only [p4, p5, f1, f2, f3, f4]
-  rw [leVal_le 4 _ (by simpa using hf), leVal_le 4 _ (by simpa using hd),
-    leVal_le 8 _ (by have : payload.length < 2 ^ 64 := by omega
-                     simpa using this)]
-  rw [if_neg (by decide), if_neg (by decide), if_neg (by simp), if_neg (by rw [p1]; omega),
-    if_neg (by rw [p1]; omega), if_neg (by simp), if_neg (by decide), if_neg (by simp),
-    if_neg (by simp)]
-  rfl
 
 /-- a written checkpoint reads back the state that was written -/
 theorem checkpoint_roundtrip {σ : Type} (crc : Bytes → Nat) (ser : σ → Bytes) (de : Bytes → Option σ)
@@ -304,15 +259,6 @@ theorem uncovered_bytes_harmless_checkpoint {σ : Type} (crc : Bytes → Nat) (d
   rw [← chkHeader_eq, List.append_nil] at this
   rw [this]
 
-/-- any image too short for the footer its own length field announces is rejected -/
-theorem chk_err_of_short {σ : Type} (crc : Bytes → Nat) (de : Bytes → Option σ) (data : Bytes)
-    (h : data.length < 52 ∨ data.length < 52 + leVal ((data.drop 48).take 4) + 16) :
-    IsErr (readCheckpoint crc de data) := by
-  unfold readCheckpoint
-  simp only
-  repeat' split
-  all_goals first | exact isErr_error _ | (exfalso; omega) | (exfalso; contradiction)
-
 /-- EVERY proper prefix of a written checkpoint is reported as an error (unconditionally) -/
 theorem checkpoint_truncation_detected {σ : Type} (crc : Bytes → Nat) (de : Bytes → Option σ)
     (k t l : Nat) (payload : Bytes) (hl : payload.length < 2 ^ 32) (n : Nat)
@@ -339,33 +285,6 @@ theorem checkpoint_truncation_detected {σ : Type} (crc : Bytes → Nat) (de : B
     rw [this, leVal_le 4 _ (by simpa using hl)]
     omega
 
-theorem chk_err_of_header_crc {σ : Type} (crc : Bytes → Nat) (de : Bytes → Option σ) (data : Bytes)
-    (h : crc ((data.take 48).take 6 ++ ((data.take 48).drop 8).take 24)
-          ≠ leVal (((data.take 48).drop 44).take 4)) :
-    IsErr (readCheckpoint crc de data) := by
-  unfold readCheckpoint
-  simp only
-  repeat' split
-  all_goals first | exact isErr_error _ | (exfalso; omega) | (exfalso; contradiction)
-
-theorem chk_err_of_footer_crc {σ : Type} (crc : Bytes → Nat) (de : Bytes → Option σ) (data : Bytes)
-    (h : let foot := (data.drop (52 + leVal ((data.drop 48).take 4))).take 16
-         crc (foot.take 12) ≠ leVal ((foot.drop 12).take 4)) :
-    IsErr (readCheckpoint crc de data) := by
-  unfold readCheckpoint
-  simp only at h ⊢
-  repeat' split
-  all_goals first | exact isErr_error _ | (exfalso; omega) | (exfalso; contradiction)
-
-theorem chk_err_of_data_crc {σ : Type} (crc : Bytes → Nat) (de : Bytes → Option σ) (data : Bytes)
-    (h : let dlen := leVal ((data.drop 48).take 4)
-         crc ((data.drop 52).take dlen) ≠ leVal (((data.drop (52 + dlen)).take 16).take 4)) :
-    IsErr (readCheckpoint crc de data) := by
-  unfold readCheckpoint
-  simp only at h ⊢
-  repeat' split
-  all_goals first | exact isErr_error _ | (exfalso; omega) | (exfalso; contradiction)
-
 /-- `covered_corruption_detected` (checkpoint): any byte string on which one of the three
     checksums (header fields, footer, data) does not match is rejected — whichever positions were
     damaged, including the data-length field (which moves the footer: then the footer checksum is
@@ -386,33 +305,48 @@ theorem checkpoint_corruption_detected {σ : Type} (crc : Bytes → Nat) (de : B
 
 /-! ## WAL entry -/
 
-/-- `to_delta(decode(encode(from_delta(d, ts)))) = d`, followed by anything -/
-theorem wal_entry_roundtrip {δ : Type} (crc : Bytes → Nat) (ser : δ → Bytes) (de : Bytes → Option δ)
-    (d : δ) (ts : Nat) (rest : Bytes) (hlaw : de (ser d) = some d)
-    (hf : (Entry.mk' crc (ser d) ts).Fits) :
-    (decode crc ((Entry.mk' crc (ser d) ts).encode ++ rest)).bind (fun p => de p.1.data) = some d ∧
-    (decode crc ((Entry.mk' crc (ser d) ts).encode ++ rest)).map (fun p => p.1.ts) = some ts := by
-  rw [(C10.decode_encode crc _ rest hf rfl).1]
+/-- `to_delta(decode(encode(from_delta(d, ts)))) = d`, followed by anything (both formats) -/
+theorem wal_entry_roundtrip {δ : Type} (fmt : Format) (crc : Bytes → Nat) (ser : δ → Bytes)
+    (de : Bytes → Option δ) (d : δ) (ts : Nat) (rest : Bytes) (hlaw : de (ser d) = some d)
+    (hf : (Entry.mk' fmt crc (ser d) ts).Fits) (hne : fmt = .v2 → (ser d).length ≠ 0) :
+    (decode fmt crc ((Entry.mk' fmt crc (ser d) ts).encode ++ rest)).bind (fun p => de p.1.data) = some d ∧
+    (decode fmt crc ((Entry.mk' fmt crc (ser d) ts).encode ++ rest)).map (fun p => p.1.ts) = some ts := by
+  have h := (C10.decode_encode fmt crc (Entry.mk' fmt crc (ser d) ts) rest ⟨hf, rfl, hne⟩).1
+  rw [h]
   exact ⟨hlaw, rfl⟩
 
-/-- WAL payload corruption ends recovery (C10 `corruption_stops_payload`); what the entry
+/-- CURRENT format: the stamp of a WAL entry is covered — an encoded entry whose stamp bytes
+    were changed to `ts'` does not decode when the checksum tells the covered strings apart -/
+theorem wal_timestamp_covered (crc : Bytes → Nat) (e : Entry) (ts' : Nat) (rest : Bytes)
+    (he : e.Good .v2 crc) (ht : ts' < 2 ^ 64)
+    (hne : crc (covered .v2 e.data.length ts' e.data) ≠ crc (covered .v2 e.data.length e.ts e.data)) :
+    decode .v2 crc ((Entry.mk e.data ts' e.crc).encode ++ rest) = none := by
+  have heq : (Entry.mk e.data ts' e.crc).encode ++ rest
+      = le 4 e.data.length ++ (le 8 ts' ++ (le 4 e.crc ++ (e.data ++ rest))) := by simp [Entry.encode]
+  rw [heq, decode_hdr .v2 crc _ _ _ _ he.1.1 ht he.1.2.2]
+  split
+  · rfl
+  · rw [if_neg (by simp), List.take_left' rfl, if_neg (by rw [← he.2.1]; exact hne)]
+
+/-- OLD format `.v1`: WAL payload corruption ends recovery (C10 `corruption_stops_payload`); what the entry
     checksum does NOT cover is the stamp: two entries that differ only in stamp bytes both
     decode, so a damaged stamp is decoded into different data -/
 theorem wal_timestamp_uncovered_counterexample (crc : Bytes → Nat) (hr : crc [7] < 2 ^ 32) :
     ∃ img img' : Bytes, img.length = img'.length ∧ img' = img.set 5 1 ∧
-      (decode crc img).map (fun p => p.1.ts) = some 5 ∧
-      (decode crc img').map (fun p => p.1.ts) = some 261 ∧
-      (decode crc img).map (fun p => p.1.data) = (decode crc img').map (fun p => p.1.data) := by
-  refine ⟨(Entry.mk' crc [7] 5).encode, (Entry.mk' crc [7] 261).encode, ?_, ?_, ?_, ?_, ?_⟩
+      (decode .v1 crc img).map (fun p => p.1.ts) = some 5 ∧
+      (decode .v1 crc img').map (fun p => p.1.ts) = some 261 ∧
+      (decode .v1 crc img).map (fun p => p.1.data) = (decode .v1 crc img').map (fun p => p.1.data) := by
+  have hg : ∀ t, t < 2 ^ 64 → (Entry.mk' .v1 crc [7] t).Good .v1 crc := fun t ht =>
+    ⟨⟨by simp [Entry.mk'], by simpa [Entry.mk'] using ht, hr⟩, rfl, fun hc => by cases hc⟩
+  have h1 := Wal.decode_encode .v1 crc (Entry.mk' .v1 crc [7] 5) [] (hg 5 (by decide))
+  have h2 := Wal.decode_encode .v1 crc (Entry.mk' .v1 crc [7] 261) [] (hg 261 (by decide))
+  rw [List.append_nil] at h1 h2
+  refine ⟨(Entry.mk' .v1 crc [7] 5).encode, (Entry.mk' .v1 crc [7] 261).encode, ?_, ?_, ?_, ?_, ?_⟩
   · simp [encode_length]; rfl
-  · simp [Entry.encode, Entry.mk', le]
-  · have := Wal.decode_encode crc (Entry.mk' crc [7] 5) [] ⟨by simp [Entry.mk'], by simp [Entry.mk'], hr⟩ rfl
-    rw [List.append_nil] at this; rw [this]; rfl
-  · have := Wal.decode_encode crc (Entry.mk' crc [7] 261) [] ⟨by simp [Entry.mk'], by simp [Entry.mk'], hr⟩ rfl
-    rw [List.append_nil] at this; rw [this]; rfl
-  · have h1 := Wal.decode_encode crc (Entry.mk' crc [7] 5) [] ⟨by simp [Entry.mk'], by simp [Entry.mk'], hr⟩ rfl
-    have h2 := Wal.decode_encode crc (Entry.mk' crc [7] 261) [] ⟨by simp [Entry.mk'], by simp [Entry.mk'], hr⟩ rfl
-    rw [List.append_nil] at h1 h2; rw [h1, h2]; rfl
+  · simp [Entry.encode, Entry.mk', le, covered]
+  · rw [h1]; rfl
+  · rw [h2]; rfl
+  · rw [h1, h2]; rfl
 
 end C14
 end RedisVerif
